@@ -213,7 +213,10 @@ func (dc *DeploymentController) scaleDownOldReplicaSetsForRollingUpdate(ctx cont
 
 	totalScaledDown := int32(0)
 	totalScaleDownCount := availablePodCount - minAvailable
-	newRS := deploymentutil.FindNewReplicaSet(deployment, allRSs)
+	// FindNewReplicaSet sorts its argument in place by creation timestamp. allRSs may share its
+	// backing array with oldRSs (allRSs = append(oldRSs, newRS)), so search a copy; otherwise the
+	// order established above is lost and the new replica set can slide into oldRSs.
+	newRS := deploymentutil.FindNewReplicaSet(deployment, append([]*apps.ReplicaSet(nil), allRSs...))
 	// Old RSes should obey the limitation of partition.
 	ScaleDownOldLimit := ScaleDownLimitForOld(oldRSs, newRS, deployment, dc.strategy.Partition)
 	totalScaleDownCount = integer.Int32Min(totalScaleDownCount, ScaleDownOldLimit)
